@@ -5,6 +5,9 @@ from .framework import run_check
 
 # property id -> "module:Class" (module relative to the harness package)
 PROPS = {
+    "C07": "props_multibin:C07",
+    "C13": "props_purity:C13",
+    "C09": "props_cohorts:C09",
     "C12": "props_lazy:C12",
     "C04": "props_decomp:C04",
     "C08": "props_partial:C08",
